@@ -481,6 +481,24 @@ def run(ctx, R, tier):
         R.add("C16-R3", "get_metadata|registered-means-not-None", "DaemonObject.get_metadata (the handshake's lookup) treats exactly `None` as unknown: a registered object that is "
               "falsy (an empty container-like object) is still connected to", o.ok, o.loc, o.detail)
 
+    # ... and uriFor returns only a uri whose object part IS the id it was asked for: an id the uri syntax cannot carry (one containing '@': the parser cuts the object at
+    # the first '@') is refused, instead of handing out a uri that addresses another id. register() validates its id through uriFor before anything is stored
+    uf = ctx.fn("Pyro5.server.Daemon.uriFor")
+    ucfg = ctx.cfg(uf)
+    idv = uf.params[1]
+
+    def names_the_id(atom, pol):
+        if isinstance(atom, ast.Compare) and len(atom.ops) == 1 and isinstance(atom.ops[0], (ast.Eq, ast.NotEq)):
+            sides = [unparse(atom.left), unparse(atom.comparators[0])]
+            return idv in sides and any(x.endswith(".object") for x in sides) and (pol is True) == isinstance(atom.ops[0], ast.Eq)
+        return False
+    urets = [n for n in ucfg.nodes if n.kind == "stmt" and isinstance(n.ast, ast.Return)]
+    if not urets:
+        raise AnalysisError("uriFor: no return statement")
+    oku = all(ucfg.guarded(n, lambda e: edge_has_fact(e, names_the_id)) for n in urets)
+    R.check(oku, "C16-R3", "uriFor|returned-uri-names-the-id-it-was-asked-for", "uriFor returns only after comparing the parsed uri's object part with the id", uf.loc(urets[0].ast),
+            "uriFor hands out whatever 'PYRO:<id>@<location>' parses to: for an id containing '@' that is a uri for ANOTHER id (the text before the first '@') at a mangled location - "
+            "register() accepts the id, and the daemon's own uri, proxyFor and auto-proxies for the object address something else")
     # every uri the daemon hands out (register, uriFor, proxyFor, auto-proxies) is built from the raw id and parsed by core.URI: the id a proxy then asks for is the
     # registered one only if the parser takes the object part as it stands (shared with C19-R3)
     from . import c19 as _c19
